@@ -5,6 +5,7 @@ Request (JSON on stdin):
   seqs:   [{"d": d, "hbar": float, "ops": [op, ...]}]   op = {"k": kind, ...}
      kind "gate":  {"name", "params", "modes"}                      -> pq.<name>(**params) in a Program
      kind "interf": {"matrix": [[ [re,im], ...]], "modes"}          -> pq.Interferometer
+     kind "gt":    {"P": .., "A": .., "modes"}                      -> pq.GaussianTransform
      kind "raw":   {"P": .., "A": .., "modes"}                      -> simulation_steps._apply_linear directly
      kind "rawp":  {"P": .., "modes"}                               -> simulation_steps._apply_passive_linear directly
      kind "snap":  record complex_displacement / complex_covariance of the state reached so far
@@ -62,6 +63,8 @@ def run_seq(case):
             pending.append(make_gate(op["name"], op["params"]).on_modes(*modes))
         elif k == "interf":
             pending.append(pq.Interferometer(cplx(op["matrix"])).on_modes(*modes))
+        elif k == "gt":
+            pending.append(pq.GaussianTransform(passive=cplx(op["P"]), active=cplx(op["A"])).on_modes(*modes))
         elif k == "raw":
             state = flush(state)
             steps._apply_linear(state, cplx(op["P"]), cplx(op["A"]), modes)
